@@ -631,6 +631,62 @@ theorem noPush_served_unchanged (s : Index) (sk : ShardKey) (k : Key) (eps : Lis
     obtain ⟨e, he, heq⟩ := h3 hn o ho.1
     exact ⟨e, by simp [served, he, ← pushable_of_equals heq, ho.2], heq⟩
 
+/-- In a list with distinct keys, the key determines the element. -/
+theorem eq_of_key_eq {α β : Type} (f : α → β) :
+    ∀ (l : List α), (l.map f).Nodup → ∀ a ∈ l, ∀ b ∈ l, f a = f b → a = b
+  | [], _, a, ha, _, _, _ => by cases ha
+  | x :: xs, hn, a, ha, b, hb, hab => by
+    rw [List.map_cons, List.nodup_cons] at hn
+    rcases List.mem_cons.mp ha with rfl | ha'
+    · rcases List.mem_cons.mp hb with rfl | hb'
+      · rfl
+      · exact absurd (hab ▸ List.mem_map_of_mem (f := f) hb') hn.1
+    · rcases List.mem_cons.mp hb with rfl | hb'
+      · exact absurd (hab ▸ List.mem_map_of_mem (f := f) ha') hn.1
+      · exact eq_of_key_eq f xs hn.2 a ha' b hb' hab
+
+/-- **NoPush keeps the served endpoints, multiplicities included.**  Assumption
+    `distinct-keys-per-report`: the stored shard AND the report carry distinct endpoint keys (what the
+    registries produce).  Then the pushable endpoints before and after the update are the same
+    multiset up to `Equals`: their key lists are permutations of each other and endpoints with the
+    same key are `Equals`.  Without the hypothesis on the report the statement is false
+    (`noPush_dup_report_witness`). -/
+theorem noPush_served_exact (s : Index) (sk : ShardKey) (k : Key) (eps : List Ep)
+    (h : (apply s (.update sk k eps)).push = .noPush) :
+    ∃ old, view s k sk = some old ∧
+      ((old.map epKey).Nodup → (eps.map epKey).Nodup →
+        ((served eps).map epKey).Perm ((served old).map epKey) ∧
+        (∀ e ∈ served eps, ∀ o ∈ served old, epKey o = epKey e → epEquals o e = true)) := by
+  obtain ⟨ss, old, hs, hold, _, h1, h2, _, _⟩ := pushType_sound s sk k eps h
+  refine ⟨old, by simp [view, hs, hold], ?_⟩
+  intro hno hne
+  have pair : ∀ e ∈ eps, ∀ o ∈ old, epKey o = epKey e → epEquals o e = true := by
+    intro e he o ho hk
+    rcases h1 e he with ⟨o', ho', hk', heq⟩ | ⟨_, hnone⟩
+    · have : o' = o := eq_of_key_eq epKey old hno o' ho' o ho (hk'.trans hk.symm)
+      exact this ▸ heq
+    · exact absurd hk (hnone o ho)
+  constructor
+  · have n1 : ((served eps).map epKey).Nodup :=
+      hne.sublist ((List.filter_sublist (l := eps)).map epKey)
+    have n2 : ((served old).map epKey).Nodup :=
+      hno.sublist ((List.filter_sublist (l := old)).map epKey)
+    refine (List.perm_ext_iff_of_nodup n1 n2).mpr ?_
+    intro x
+    simp only [served, List.mem_map, List.mem_filter]
+    constructor
+    · rintro ⟨e, ⟨he, hp⟩, rfl⟩
+      rcases h1 e he with ⟨o, ho, hk, heq⟩ | ⟨hnp, _⟩
+      · exact ⟨o, ⟨ho, by rw [pushable_of_equals heq]; exact hp⟩, hk⟩
+      · rw [hp] at hnp; cases hnp
+    · rintro ⟨o, ⟨ho, hp⟩, rfl⟩
+      obtain ⟨e, he, hk⟩ := h2 o ho
+      have heq := pair e he o ho hk.symm
+      exact ⟨e, ⟨he, by rw [← pushable_of_equals heq]; exact hp⟩, hk⟩
+  · intro e he o ho hk
+    simp only [served, List.mem_filter] at he ho
+    exact pair e he.1 o ho.1 hk
+
 /-- A report that drops a stored endpoint key is never `NoPush`. -/
 theorem removal_forces_push (s : Index) (sk : ShardKey) (k : Key) (eps old : List Ep) (o : Ep)
     (hold : view s k sk = some old) (ho : o ∈ old) (hgone : ∀ e ∈ eps, epKey e ≠ epKey o) :
@@ -759,6 +815,15 @@ example : (([ep1, ep2] : List Ep).map epKey).Nodup := by decide
     although an endpoint left the shard. The distinct-keys hypothesis above is needed. -/
 theorem noPush_dupkey_witness :
     (apply (run Index.empty [.update skA kA [{ ep1 with weight := 7 }, ep1]]) (.update skA kA [ep1])).push = .noPush := by
+  decide
+
+/-- Corner (the same endpoint twice in one report, which the registries do not produce): the report
+    `[ep1, ep1]` over the stored `[ep1]` is `NoPush` - the comparison is per key - although a proxy
+    would now be served two endpoints instead of one.  `noPush_served_exact` needs distinct keys in
+    the report as well. -/
+theorem noPush_dup_report_witness :
+    (apply (run Index.empty [.update skA kA [ep1]]) (.update skA kA [ep1, ep1])).push = .noPush ∧
+    (served [ep1, ep1]).length = 2 ∧ (served [ep1]).length = 1 := by
   decide
 
 /-- Observation: `deleteServiceInner` does not recompute `ServiceAccounts`; after a registry is
